@@ -78,3 +78,9 @@ CHECKS["C25"] = ("in-process property-based testing with a stopper thread at gen
 CHECKS["C18"] = ("grammar-based fault injection (Hypothesis) and token-level mutation of the regression corpus, run on the ASan/UBSan executable as file and pipe input",
                  "Generated near-valid scripts and mutated regression files; any crash, abort, uncaught exception, sanitizer report, unexpected exit status, unsignalled error or hang without check-sat is a violation (known crash sites are keyed by fingerprint). The in-process libFuzzer target of the design (fz_interpret) is not built. Exploration only.",
                  "sanitizer build; our S-expression reader decides 'unbalanced'", "DESIGN.md §4 C18")
+CHECKS["C21"] = ("model-based (stateful) property-based testing: generated command histories against a Python scope model",
+                 "Generated push/pop/:named/define-fun histories with re-introductions and name-printing queries; every accept/reject decision and every printed name is compared with the scope model. Exploration only.",
+                 "our scope model of SMT-LIB assertion-stack scoping and :global-declarations", "DESIGN.md §4 C21")
+CHECKS["C19"] = ("metamorphic property-based testing: valid history H vs H with generated rejected commands inserted; answers compared literally, artefacts by the C03/C06/C08 validators",
+                 "Generated histories with 1-3 rejected commands from a catalogue of interpreter failure points; the rest of the script must behave as if the commands were omitted (probe commands re-use the names they mention). Exploration only.",
+                 REF + "; only inserted commands that really answered (error ..) are judged", "DESIGN.md §4 C19")
